@@ -764,7 +764,7 @@ def evaluate(ctx, cases, broken, label, coq=True):
         small = [i for i in ok_idx if cases[i]["n"] <= 60]
         large = [i for i in ok_idx if cases[i]["n"] > 60]
         jobs = []
-        for part, shard, nm in ((small, 40, label + "_s"), (large, 2, label + "_l")):
+        for part, shard, nm in ((small, 25, label + "_s"), (large, 2, label + "_l")):
             for k in range(0, len(part), shard):      # one generated file per shard, each with its own table of string constants
                 chunk = part[k:k + shard]
                 STRTAB.clear()
@@ -780,7 +780,7 @@ def evaluate(ctx, cases, broken, label, coq=True):
                     break
             return chunk, bad, err
         from concurrent.futures import ThreadPoolExecutor
-        with ThreadPoolExecutor(max_workers=12) as ex:
+        with ThreadPoolExecutor(max_workers=14) as ex:
             results = list(ex.map(one, jobs))
         for chunk, bad, err in results:
             if bad is None:
